@@ -85,6 +85,25 @@ class Scheduler:
             self.nested_record.append(c)
         return c
 
+    def draw(self, n):
+        """A recorded random integer in [0, n): simulated delays (e.g. a polling thread's sleep)
+        are part of the schedule and replay with it."""
+        if self.nested is not None:
+            c = self.nested.pop(0) if self.nested else 0
+            return c % n
+        if self.replay is not None:
+            if self.rpos < len(self.replay):
+                c = self.replay[self.rpos] % n
+                self.rpos += 1
+            else:
+                c = 0
+        else:
+            c = self.rng.randrange(n)
+        self.choices.append(c)
+        if self.nested_record is not None:
+            self.nested_record.append(c)
+        return c
+
     def _choose(self, runnable, cur, n):
         if self.replay is not None:
             if self.rpos < len(self.replay):
